@@ -33,9 +33,25 @@ MK_INVS = ["InvMerkleEmptyIffEqual", "InvMerkleCovers"]
 HLL_REAL_REGS = 16          # HyperLogLog needs precision >= 4
 
 
+_KNOWN_DEV = None
+
+
 def as_code_dev():
-    return sorted({e["deviation"] for e in load_known().get("open", [])
-                   if e["property"] == PROP and e.get("deviation")})
+    """Deviations of open known findings of C20 (read once per process; the file may be rewritten
+    concurrently by other builders' `harness.kf add-open`, hence the retry)."""
+    global _KNOWN_DEV
+    if _KNOWN_DEV is None:
+        for attempt in range(20):
+            try:
+                known = load_known()
+                break
+            except ValueError:
+                time.sleep(0.2)
+        else:
+            known = load_known()
+        _KNOWN_DEV = sorted({e["deviation"] for e in known.get("open", [])
+                             if e["property"] == PROP and e.get("deviation")})
+    return list(_KNOWN_DEV)
 
 
 def devset(dev):
